@@ -61,6 +61,7 @@ def gen(rng, tier, no, wide=False):
                        "labels": rng.choice([["control", "test"], ["control", "test"], ["run", "run"], ["t1", "t1"], ["a b", "a"]])}}
     # the three documented ways of handing a trace over: a LabeledTrace, a Trace object, a trace directory
     case["params"]["arg_form"] = rng.choice(["labeled", "labeled", "labeled", "trace", "dir"])
+    case["params"]["frac"] = rng.random() < 0.1
     return case
 
 
@@ -68,6 +69,41 @@ def _norm(sel, all_):
     if sel is None:
         return all_[:1]
     return [sel] if isinstance(sel, int) else list(sel)
+
+
+def _twin_table(case, p):
+    """compare_traces on the same two traces at one eighth of the time scale with HTA_DISABLE_NS_ROUNDING=1:
+    name -> [control count, test count, control duration * 8, test duration * 8]."""
+    import copy
+
+    def scaled(ranks):
+        c2 = copy.deepcopy(ranks)
+        for ev in c2.values():
+            for e in ev:
+                if isinstance(e, dict):
+                    if "ts" in e:
+                        e["ts"] = e["ts"] / 8.0
+                    if "dur" in e:
+                        e["dur"] = e["dur"] / 8.0
+        return c2
+    os.environ["HTA_DISABLE_NS_ROUNDING"] = "1"
+    g1 = g2 = None
+    try:
+        g1 = htaio.write_case({"ranks": scaled(case["ranks"])})
+        g2 = htaio.write_case({"ranks": scaled({int(k): v for k, v in case["test_ranks"].items()})})
+        from hta.common.trace import Trace
+        from hta.trace_diff import DeviceType, LabeledTrace, TraceDiff
+        lc = LabeledTrace(label="control", t=Trace(trace_files=dict(g1), trace_dir=os.path.dirname(next(iter(g1.values())))))
+        lt = LabeledTrace(label="test", t=Trace(trace_files=dict(g2), trace_dir=os.path.dirname(next(iter(g2.values())))))
+        df = TraceDiff.compare_traces(lc, lt, p["control_rank"], p["test_rank"], p["control_iteration"], p["test_iteration"], DeviceType[p["device"]], p["short"])
+        return {str(n): [C.num(rec.iloc[0]), C.num(rec.iloc[2]), C.num(float(rec.iloc[1]) * 8), C.num(float(rec.iloc[3]) * 8)] for n, rec in df.iterrows()}
+    except Exception as e:  # noqa: BLE001
+        return {"raises": "sub-microsecond twin: " + C.exc_name(e) + ": " + str(e)[:100]}
+    finally:
+        os.environ.pop("HTA_DISABLE_NS_ROUNDING", None)
+        for g in (g1, g2):
+            if g:
+                htaio.remove_case_dir(g)
 
 
 def observe(case):
@@ -109,6 +145,8 @@ def observe(case):
             canon["ops_diff"] = {k: sorted(map(str, v)) for k, v in od.items()}
         except Exception as e:  # noqa: BLE001
             canon = {"raises": C.exc_name(e) + ": " + str(e)[:160]}
+        if p.get("frac") and "raises" not in canon:
+            canon["twin"] = _twin_table(case, p)
         # the iterations of a trace: the numbers of its ProfilerStep#k annotations in ascending order, read off the rows
         # (not taken from the implementation: the default selection "first iteration" depends on that order)
         def its(rows_by_rank):
@@ -172,6 +210,15 @@ def oracle(case, obs) -> List[str]:
     if "raises" in c:
         return [f"comparison raised {c['raises']}"]
     out = []
+    tw = c.get("twin")
+    if tw is not None:
+        if "raises" in tw:
+            out.append(tw["raises"])
+        else:
+            exp = {n: [v[0], v[1], v[2], v[3]] for n, v in c["table"].items()}
+            if tw != exp:
+                bad = sorted(n for n in set(tw) | set(exp) if tw.get(n) != exp.get(n))[:3]
+                out.append(f"at one eighth of the time scale (HTA_DISABLE_NS_ROUNDING=1) counts and durations times 8 differ for {[(n, tw.get(n), exp.get(n)) for n in bad]}")
 
     def summ(rows_by_rank, rsel, isel, iters):
         its = set(_norm(isel, iters))
